@@ -55,6 +55,20 @@ def model_desc(typ, style, any_inputs=False):
     return m
 
 
+EVENT_ATTRS = ("e_out", "ce_out")
+
+
+def child_desc(typ, style):
+    """Model of the child entities ("Sub"): the parent's description with every attribute
+    renamed (prefix c), so that parent and child models accept different attributes."""
+    d = model_desc(typ, style)
+    out = {"public": False, "params": []}
+    for k, v in d.items():
+        if isinstance(v, list):
+            out[k] = ["c" + a for a in v]
+    return out
+
+
 def digest_inputs(inputs) -> str:
     return hashlib.blake2b(json.dumps(inputs, sort_keys=True, default=repr).encode(),
                            digest_size=6).hexdigest()
@@ -84,6 +98,8 @@ class StubSim(mosaik_api_v3.Simulator):
         t = spec["type"]
         meta = {"models": {"M": model_desc(t, spec.get("meta_style", 0),
                                            spec.get("any_inputs", False))}}
+        if spec.get("child"):
+            meta["models"]["Sub"] = child_desc(t, spec.get("meta_style", 0))
         if spec.get("omit_type"):
             pass
         else:
@@ -99,6 +115,10 @@ class StubSim(mosaik_api_v3.Simulator):
     def create(self, num, model, **params):
         n0 = getattr(self, "_n_created", 0)
         self._n_created = n0 + num
+        if (self.spec or {}).get("child"):
+            # every entity has one child of another model
+            return [{"eid": f"e{n0 + i}", "type": model,
+                     "children": [{"eid": f"e{n0 + i}c", "type": "Sub", "rel": []}]} for i in range(num)]
         return [{"eid": f"e{n0 + i}", "type": model} for i in range(num)]
 
     def setup_done(self):
@@ -190,7 +210,7 @@ class StubSim(mosaik_api_v3.Simulator):
         for eid, attrs in outputs.items():
             for a in attrs:
                 typ = self.spec["type"]
-                if typ == "time-based" or (typ == "hybrid" and a != "e_out"):
+                if typ == "time-based" or (typ == "hybrid" and a not in EVENT_ATTRS):
                     # persistent attribute: always present
                     data.setdefault(eid, {})[a] = f"{self.sid}.{eid}.{a}@{time}#{k}{self.idig}"
                     any_p = True
